@@ -82,6 +82,8 @@ def _load_twin():
     for name in list(table):
         f = table[name]
         monitors.M.fn_names.setdefault(id(f), 'builtin:' + name)
+        if isinstance(f, type):
+            continue
         w = monitors._wrap_builtin(name, f)
         table[name] = w
         monitors.M.fn_names[id(w)] = 'builtin:' + name
@@ -94,6 +96,9 @@ def reset_run_state():
     modstate.reset(SNAP_A)
     modstate.reset(SNAP_B)
     decimal.setcontext(CTX0.copy())       # the thread's decimal context is process-global state too
+    from . import seams
+    seams.VCLOCK.reset()
+    seams.REGEX.reset('pass')
 
 
 class pristine_context:
